@@ -328,7 +328,7 @@ def cases(draw, finite_max=True):
     n = draw(st.integers(2, 6))
     ids = list(draw(st.permutations(sc.STATION_POOL)))[:n]
     stations = [draw(sc.station_specs(i, ("cont0", "finite"))) for i in ids]
-    period = draw(st.sampled_from([1, 5, 15]))
+    period = draw(st.sampled_from([1, 5, 15, 7, 8, 2.5]))
     k = draw(st.integers(1, n))
     chosen = list(draw(st.permutations(range(n))))[:k]
     arrivals = draw(st.lists(st.integers(-30, 0), min_size=k, max_size=k, unique=True))
